@@ -344,7 +344,7 @@ def run_check(pid, tier, seed, level, level_text=None):
     for v, r in sorted(tie.items()):
         if r["status"] == "kernel-checked":
             ns = r["module"].split(".")[-1]
-            ta = audit(ns, log, [r["module"]])
+            ta = audit(ns, log, r.get("modules") or [r["module"]])
             r["theorems"] = ta["theorems"]
             bad_ax = [t for t in ta["theorems"] if not t["ok"]]
             if ta["rc"] != 0 or not ta["theorems"] or bad_ax:
@@ -355,7 +355,8 @@ def run_check(pid, tier, seed, level, level_text=None):
             tie_notes.append("source tie CVSS%s %s: %s" % (v, r["status"], (r.get("detail") or "")[:400]))
     lc = None
     if tier == "thorough" and b["build_ok"]:
-        ok_lc, n_lc, out_lc = leancheck(pid, log, [r["module"] for r in tie.values() if r["status"] == "kernel-checked"])
+        ok_lc, n_lc, out_lc = leancheck(pid, log, [m for r in tie.values() if r["status"] == "kernel-checked"
+                                                       for m in (r.get("modules") or [r["module"]])])
         lc = {"modules": n_lc, "ok": ok_lc}
         if not ok_lc:
             proof_problems.append("leanchecker rejects the compiled proofs: " + out_lc)
@@ -458,7 +459,7 @@ def run_check(pid, tier, seed, level, level_text=None):
             "explanation": getattr(mod, "EXPLANATION", "") or (level_text or ""),
             "notes": ctx.notes,
             "leanchecker": lc,
-            "source_tie": {("CVSS" + v): {k: r.get(k) for k in ("class", "module", "status", "detail", "translated", "theorems",
+            "source_tie": {("CVSS" + v): {k: r.get(k) for k in ("class", "modules", "status", "detail", "translated", "theorems",
                                                                  "validation")} for v, r in sorted(tie.items())},
             **ctx.extra,
         },
